@@ -15,10 +15,12 @@ def run (t : List String) : String :=
   | ["exhaust", kind, m] =>
     if kind = "pub" || kind = "sub" then
       -- the pub/sub wrapper polled by a wake-driven executor (`c12_exhaustion_is_reported`)
+      -- attempts made: the polls between the one that noticed the loss and the one that reports
       match (driveUntilValue { max := nat! m } (nat! m + 3) .connected).getLast? with
-      | some .tooManyRetries => "TooManyRetries"
+      | some .tooManyRetries => s!"TooManyRetries attempts={(driveUntilValue { max := nat! m } (nat! m + 3) .connected).length - 2}"
       | _ => "hang"
-    else outText (reconnect (nat! m) []).1
+    else outText (reconnect (nat! m) []).1 ++ s!" attempts={(reconnect (nat! m) []).2}"
+  | ["exhaust", kind, m, _law] => run ["exhaust", kind, m]
   | ["displaced", m] =>
     -- every registration is refused, every reconnection itself succeeds: budget + 1 sessions decide
     let outs := replierLife replierBudgetPerOutage replierRefusalCountsAsAttempt (nat! m) (nat! m)
@@ -35,6 +37,7 @@ def run (t : List String) : String :=
     match outs.find? (· != .reconnected) with
     | some o => outText o
     | none => "ok"
+  | [kind, n, m, _law] => run [kind, n, m]
   | [kind, n, m] =>
     let per := if kind = "replier" then replierBudgetPerOutage
       else if kind = "requestor" then requestorBudgetPerOutage && requestorRestartsReader
